@@ -59,6 +59,9 @@ func replayBFS(c *runCtx, model, file string, opts func(tier string) interface{}
 		return err
 	}
 	ob, _ := json.Marshal(opts(rf.Tier))
+	if rf.Violation.Opts != nil {
+		ob, _ = json.Marshal(rf.Violation.Opts) // the options of the pass that found it
+	}
 	hb, _ := json.Marshal(rf.Violation.Hist)
 	cmd := exec.Command(c.Bin, "replay", model, string(ob), string(hb))
 	cmd.Stdout = os.Stdout
